@@ -725,7 +725,98 @@ def s_str_starts_with(e, st, callee, args, dty):
     return Bool(z3.And(*[s.items[j] == B8(pat[j]) for j in range(len(pat))]) if pat else z3.BoolVal(True))
 
 
+def validity_alts(e, st, items):
+    """[(cond, valid python bool)] - is the byte string valid UTF-8 (std rules)"""
+    al = Alts(e, st)
+    out = []
+    for conds, toks in decode_all(al, list(items)):
+        out.append((and_or_none(conds), all(k == "char" for k, _, _, _ in toks)))
+    return out
+
+
+def s_into_string(e, st, callee, args, dty):
+    s = as_str(e, st, args[0])
+    if s is None:
+        return NotImplemented
+    return [(c, EnumV("Result", "Ok", 0, {0: Str(s.items, "String")}) if ok else EnumV("Result", "Err", 1, {0: Str(s.items, "OsString")}))
+            for c, ok in validity_alts(e, st, s.items)]
+
+
+def s_to_str(e, st, callee, args, dty):
+    s = as_str(e, st, args[0])
+    if s is None:
+        return NotImplemented
+    return [(c, EnumV("Option", "Some", 1, {0: Str(s.items, "str")}) if ok else EnumV("Option", "None", 0, {}))
+            for c, ok in validity_alts(e, st, s.items)]
+
+
+def s_from_utf8(e, st, callee, args, dty):
+    s = as_str(e, st, args[0])
+    if s is None:
+        return NotImplemented
+    return [(c, EnumV("Result", "Ok", 0, {0: Str(s.items, "str")}) if ok else EnumV("Result", "Err", 1, {0: Lazy("utf8_error", "Utf8Error")}))
+            for c, ok in validity_alts(e, st, s.items)]
+
+
+def s_bytes(e, st, callee, args, dty):
+    s = as_str(e, st, args[0])
+    if s is None:
+        return NotImplemented
+    return Agg("Bytes", {0: Str(s.items, "bytes")})
+
+
+def s_bytes_any_all(e, st, callee, args, dty):
+    it = deref_val(e, st, args[0])
+    if not (isinstance(it, Agg) and it.ty == "Bytes"):
+        return NotImplemented
+    terms = [closure_bool(e, st, args[1], [Int(b, "u8")]) for b in it.fields[0].items]
+    if meth_name(callee) == "any":
+        return Bool(z3.Or(*terms) if terms else z3.BoolVal(False))
+    return Bool(z3.And(*terms) if terms else z3.BoolVal(True))
+
+
+def s_chars_all(e, st, callee, args, dty):
+    r = s_iter_any(e, st, callee, [args[0], args[1]], dty)
+    return NotImplemented     # `all` over chars: not needed so far
+
+
+def s_ascii_pred(e, st, callee, args, dty):
+    v = deref_val(e, st, args[0])
+    if not isinstance(v, Int):
+        return NotImplemented
+    t = v.t
+    w = t.size()
+    c = lambda x: z3.BitVecVal(x, w)
+    r = lambda lo, hi: z3.And(z3.UGE(t, c(lo)), z3.ULE(t, c(hi)))
+    m = meth_name(callee)
+    table = {
+        "is_ascii": z3.ULT(t, c(0x80)),
+        "is_ascii_control": z3.Or(z3.ULT(t, c(0x20)), t == c(0x7F)),
+        "is_ascii_whitespace": z3.Or(t == c(0x20), t == c(0x09), t == c(0x0A), t == c(0x0C), t == c(0x0D)),
+        "is_ascii_digit": r(0x30, 0x39),
+        "is_ascii_hexdigit": z3.Or(r(0x30, 0x39), r(0x41, 0x46), r(0x61, 0x66)),
+        "is_ascii_alphabetic": z3.Or(r(0x41, 0x5A), r(0x61, 0x7A)),
+        "is_ascii_alphanumeric": z3.Or(r(0x30, 0x39), r(0x41, 0x5A), r(0x61, 0x7A)),
+        "is_ascii_graphic": r(0x21, 0x7E),
+        "is_ascii_punctuation": z3.Or(r(0x21, 0x2F), r(0x3A, 0x40), r(0x5B, 0x60), r(0x7B, 0x7E)),
+        "is_ascii_uppercase": r(0x41, 0x5A),
+        "is_ascii_lowercase": r(0x61, 0x7A),
+    }
+    if m == "is_control" and w == 32:
+        return Bool(z3.Or(z3.ULT(t, c(0x20)), r(0x7F, 0x9F)))
+    if m in table:
+        return Bool(table[m])
+    return NotImplemented
+
+
 STR = {
+    r"^(std::ffi::)?OsString::into_string$": s_into_string,
+    r"^(std::ffi::)?OsStr::to_str$|^(std::path::)?Path::to_str$": s_to_str,
+    r"^(core::str::|std::str::)?from_utf8$": s_from_utf8,
+    r"^(core::str::|std::str::)?(<impl str>::)?bytes$": s_bytes,
+    r"^<(std::str::)?Bytes(<'_>)? as (std::iter::)?Iterator>::(any|all)$": s_bytes_any_all,
+    r"^(core::num::|core::char::methods::|char::methods::)?(<impl (u8|char)>::|u8::|char::)?is_(ascii(_[a-z]+)?|control)$": s_ascii_pred,
+    r"^(core::str::|std::str::)?(<impl str>::)?as_bytes$|^(std::string::)?String::as_bytes$|^(std::string::)?String::into_bytes$|^(std::ffi::)?OsStr::as_bytes$|^<.* as (std::os::unix::ffi::)?OsStrExt>::as_bytes$|^(std::string::)?String::into_boxed_str$": s_str_identity,
     r"^(std::ffi::)?(OsString|OsStr|std::ffi::OsStr)::to_string_lossy$|^std::ffi::os_str::<impl .*>::to_string_lossy$|^(std::path::)?Path::to_string_lossy$": s_to_string_lossy,
     r"^<.*(Cow<'_, str>|Cow<str>|String|OsString|PathBuf).* as (std::ops::)?Deref>::deref$": s_str_ref_identity,
     r"^<.*Cow<.*str>.* as (std::string::)?ToString>::to_string$|^<str as ToString>::to_string$|^<.* as ToOwned>::to_owned$|^(std::string::)?String::as_str$|^(std::ffi::)?OsString::as_os_str$|^(std::ffi::)?OsStr::to_os_string$|^<.* as (std::convert::)?AsRef<(std::ffi::)?OsStr>>::as_ref$|^(std::ffi::)?OsString::into_vec$|^<.* as (std::os::unix::ffi::)?OsStringExt>::(into_vec|from_vec)$|^<.*String as From<.*>>::from$|^(std::ffi::)?OsString::from$|^<(std::ffi::)?OsString as From<.*>>::from$|^<Vec<u8> as Deref>::deref$": s_str_identity,
